@@ -73,6 +73,23 @@ func (*quietProc) Naming() string { return "zq-quiet" }
 func (*quietProc) Priority()      {}
 func (*quietProc) Order() int     { return 0 }
 
+// a user processor ordered FIRST that answers true and returns a non-nil but EMPTY property list from PostProcessProperties:
+// the container hands every processor the component's own property list; what a processor returns must not make later
+// processors lose properties
+type partialProc struct {
+	processors.DefaultInstantiationAwareComponentPostProcessor
+}
+
+func (*partialProc) Naming() string { return "zq-partial" }
+func (*partialProc) Priority()      {}
+func (*partialProc) Order() int     { return 0 }
+func (*partialProc) PostProcessAfterInstantiation(component any, name string) (bool, error) {
+	return true, nil
+}
+func (*partialProc) PostProcessProperties(ps []*component_definition.Property, component any, name string) ([]*component_definition.Property, error) {
+	return []*component_definition.Property{}, nil
+}
+
 // what the user post-processors depend on: a plain component of its own (not a graph node)
 type pdep struct{ inited bool }
 
@@ -200,10 +217,17 @@ func (e *env) cb(ev string, id int) error {
 	}
 	e.emit(ev, id, x)
 	if fail {
+		if id%2 == 0 {
+			return engErr(0) // a value-typed error whose value is the zero value of its type: a non-nil error all the same
+		}
 		return fmt.Errorf("injected failure %s n%d", ev, id)
 	}
 	return nil
 }
+
+type engErr int
+
+func (engErr) Error() string { return "injected failure (code 0)" }
 
 func (e *env) idOf(name string) int {
 	if len(name) == 5 && name[0] == 'n' {
@@ -742,6 +766,8 @@ func runEngScenario(sc *EngScenario) []map[string]any {
 	}
 	if sc.Quiet {
 		ordered = append(ordered, &quietProc{})
+	} else if sc.Seed%3 == 0 {
+		ordered = append(ordered, &partialProc{})
 	}
 	if sc.Extra {
 		ordered = append(ordered, processors.NewDependencyTypeAwarePostProcessors())
